@@ -45,6 +45,8 @@ class C18(Machine):
     assumptions = ["a simulator call that exceeds %d step-clock ticks is abandoned and counted, not judged (the statement does not bound running time)" % BUDGET,
                    "tip heights compared with rel. tol. 1e-8; coalescence-before-divergence with abs. tol. 1e-9"]
 
+    cross_interpreter_outputs = True
+
     def __init__(self, name="c18"):
         self.name = name
 
@@ -202,7 +204,8 @@ class C18(Machine):
                 rec.violation("NOT_REPRODUCIBLE", dict(base, what="different_tree" if canon1 != canon2 else "different_number_of_draws"),
                               "%s: two runs from equal generator states differ (params %s): %s vs %s" % (
                                   sim, _params(st), str(canon1)[:200], str(canon2)[:200]))
-            rec.ev("sim", sim, canon1 if len(str(canon1)) < 400 else hash_str(canon1))
+            rec.ev("sim", sim)
+            rec.out(canon1)     # must not depend on the interpreter (PYTHONHASHSEED): compared across interpreters by the driver
             rec.nontrivial((sim, st["ntips"], round(st["death"] / st["birth"], 2), st["adversarial"], st.get("ns_fill") if st["with_namespace"] else None,
                             st["pop_size"], sorted(self._probes(kind, obj, st))))
         del keep[:]
